@@ -317,3 +317,29 @@ func (p *Pool) Put(x interface{}) {
 		}
 	})
 }
+
+// OnceFunc, OnceValue and OnceValues mirror the Go 1.21 helpers on top of the
+// shim's Once (panic re-raising on later calls is not modelled).
+func OnceFunc(f func()) func() {
+	var o Once
+	return func() { o.Do(f) }
+}
+
+func OnceValue[T any](f func() T) func() T {
+	var o Once
+	var v T
+	return func() T {
+		o.Do(func() { v = f() })
+		return v
+	}
+}
+
+func OnceValues[T1, T2 any](f func() (T1, T2)) func() (T1, T2) {
+	var o Once
+	var v1 T1
+	var v2 T2
+	return func() (T1, T2) {
+		o.Do(func() { v1, v2 = f() })
+		return v1, v2
+	}
+}
